@@ -28,8 +28,12 @@ def run_one(prop, patch, expect_violation):
     # untracked sample data the tests/harness may need is part of the clone (tracked); apply the patch
     p = subprocess.run(['git', 'apply', '--whitespace=nowarn', patch], cwd=SCRATCH, capture_output=True, text=True)
     if p.returncode != 0:
-        shutil.rmtree(SCRATCH, ignore_errors=True)
-        return 'PATCH-DOES-NOT-APPLY', p.stderr.strip()[:300], 0
+        # context drifted because of later fix commits: retry with fuzz (hand-written mutants only)
+        p2 = subprocess.run('patch -p1 -F3 -s --no-backup-if-mismatch < ' + patch, cwd=SCRATCH, shell=True,
+                            capture_output=True, text=True)
+        if p2.returncode != 0 or '/seeded/' in patch:
+            shutil.rmtree(SCRATCH, ignore_errors=True)
+            return 'PATCH-DOES-NOT-APPLY', p.stderr.strip()[:300], 0
     env = dict(os.environ, VERIF_REPO=SCRATCH)
     t0 = time.time()
     q = subprocess.run(['./check', prop, 'quick'], cwd=VERIF, env=env, capture_output=True, text=True)
